@@ -1236,6 +1236,19 @@ Proof.
   repeat constructor; intros a b H; lra.
 Qed.
 
+(* ---------- histories: a call's result does not depend on the calls made before it ---------- *)
+Lemma history_independent_lemma k S cs i d :
+  nth i (run_calls k S cs) (exec_call k S d) = exec_call k S (nth i cs d).
+Proof. unfold run_calls. apply map_nth. Qed.
+
+Lemma repeat_call_lemma k S cs i j d :
+  nth i cs d = nth j cs d ->
+  nth i (run_calls k S cs) (exec_call k S d) = nth j (run_calls k S cs) (exec_call k S d).
+Proof. intros H. rewrite !history_independent_lemma, H. reflexivity. Qed.
+
+Lemma run_calls_app k S a b : run_calls k S (a ++ b) = run_calls k S a ++ run_calls k S b.
+Proof. unfold run_calls. apply map_app. Qed.
+
 (* ---------- tie to the source: the kernels generated from /repo by tr/C08_kernels.py are the hand-written ones ---------- *)
 Lemma generated_kernels_agree :
   g_bubble_T_error = bubble_T_error /\ g_bubble_P_error = bubble_P_error /\
